@@ -1,5 +1,6 @@
 import Cfi.Files
 import Spec.C04
+import Proofs.Lines
 /-! C04 — property theorems (loop refinement). -/
 namespace Props.C04
 open Cfi Cfi.Text Spec.C04
@@ -15,5 +16,125 @@ theorem flatten_splitLines (s : List Char) : (splitLines s).flatten = s := by
     · split
       · rename_i h; rw [h] at ih; simp at ih; simp [← ih]
       · rename_i l ls h; rw [h] at ih; simp at ih; simp [← ih]
+
+/-- every line is non-empty, and only a last line can lack its newline -/
+theorem splitLines_ne_nil (s : List Char) : ∀ l ∈ splitLines s, l ≠ [] := by
+  induction s with
+  | nil => simp [splitLines]
+  | cons c cs ih =>
+    simp only [splitLines]
+    split
+    · intro l hl; simp at hl; rcases hl with rfl | hl
+      · simp
+      · exact ih l hl
+    · split
+      · intro l hl; simp at hl; subst hl; simp
+      · rename_i l' ls h
+        intro l hl; simp at hl; rcases hl with rfl | hl
+        · simp
+        · exact ih l (by rw [h]; simp [hl])
+
+/-- **Loop refinement**: the stream-level loop of `RegisterReading` — peek a
+line, stop if it is empty, rewind, dispatch, let the element read, append —
+returns, for ANY register list and ANY remaining input, exactly the per-line
+classification of the remaining lines (given enough fuel for the input
+length; `readRegFileText` supplies it). -/
+theorem loop_eq_mapM (regs : List RegDef) :
+    ∀ (fuel : Nat) (s : Stream Char), s.rest.length < fuel →
+      readRegLoopText regs fuel s = (splitLines s.rest).mapM (elemOfLine regs) := by
+  intro fuel
+  induction fuel with
+  | zero => intro s h; omega
+  | succ fuel ih =>
+    intro s h
+    simp only [readRegLoopText]
+    by_cases hr : s.rest = []
+    · simp [Stream.readline_fst, hr, Stream.lineOf, splitLines]
+      rfl
+    · have hne := lineOf_ne_nil '\n' hr
+      have hemp : (Stream.lineOf '\n' s.rest).isEmpty = false := by
+        cases hl : Stream.lineOf '\n' s.rest with
+        | nil => exact absurd hl hne
+        | cons _ _ => rfl
+      rw [Stream.readline_fst, hemp]
+      simp only [Bool.false_eq_true, if_false]
+      have hlen : (s.readline '\n').2.rest.length < fuel := by
+        rw [Stream.rest_readline, Stream.readline_fst, List.length_drop]
+        have : 0 < (Stream.lineOf '\n' s.rest).length := List.length_pos_iff.mpr hne
+        have := lineOf_length_le '\n' s.rest
+        omega
+      rw [ih _ hlen, Stream.rest_readline, Stream.readline_fst, splitLines_eq_lineOf hr]
+      simp [List.mapM_cons]
+
+/-- **C04 main theorem**: `RegisterFile.read(content)` on the model is the
+placeholder followed by exactly one element per line of the content, in input
+order, each decided by its line alone — for every register list and every
+content (well-formed or not). -/
+theorem main (regs : List RegDef) (content : List Char) :
+    readRegFileText regs content = expected regs content := by
+  unfold readRegFileText expected
+  rw [loop_eq_mapM regs (content.length + 1) ⟨content, 0⟩ (by simp [Stream.rest])]
+  simp [Stream.rest]
+
+/-- hence `Spec.C04.holds` of the model's output whenever it is a value -/
+theorem holds_of_ok (regs : List RegDef) (content : List Char) (es : List RElem)
+    (h : readRegFileText regs content = .ok es) : holds regs content es = true := by
+  simp [holds, ← main, h]
+
+/-- one element per line plus the placeholder -/
+theorem count (regs : List RegDef) (content : List Char) (es : List RElem)
+    (h : readRegFileText regs content = .ok es) : es.length = (splitLines content).length + 1 := by
+  rw [main] at h
+  unfold expected at h
+  cases hm : (splitLines content).mapM (elemOfLine regs) with
+  | error e => simp [hm, Except.map] at h
+  | ok xs =>
+    simp only [hm, Except.map] at h
+    injection h with h
+    rw [← h, List.length_cons]
+    have key : ∀ (ls : List (List Char)) (ys : List RElem), ls.mapM (elemOfLine regs) = .ok ys → ys.length = ls.length := by
+      intro ls
+      induction ls with
+      | nil => intro ys h; simp [List.mapM_nil, pure, Except.pure] at h; subst h; rfl
+      | cons l ls ih =>
+        intro ys h
+        rw [List.mapM_cons] at h
+        cases h1 : elemOfLine regs l with
+        | error e => simp [h1, bind, Except.bind] at h
+        | ok y =>
+          cases h2 : ls.mapM (elemOfLine regs) with
+          | error e => simp [h1, h2, bind, Except.bind] at h
+          | ok ys' =>
+            simp [h1, h2, bind, Except.bind, pure, Except.pure] at h
+            subst h
+            simp [ih ys' h2]
+    rw [key _ _ hm]
+
+/-- **First matching type wins; otherwise the line is kept verbatim** -/
+theorem classify_first (regs : List RegDef) (l : List Char) (i : Nat)
+    (h : classifyText regs l = some i) :
+    (∃ r, regs[i]? = some r ∧ r.matchesText l = true) ∧ ∀ j r', j < i → regs[j]? = some r' → r'.matchesText l = false := by
+  unfold classifyText at h
+  rw [List.findIdx?_eq_some_iff_getElem] at h
+  obtain ⟨hi, hm, hlt⟩ := h
+  refine ⟨⟨regs[i], by simp [hi], hm⟩, ?_⟩
+  intro j r' hj hr'
+  have hjl : j < regs.length := by omega
+  have := hlt j hj
+  rw [List.getElem?_eq_getElem hjl] at hr'
+  injection hr' with hr'
+  subst hr'
+  simpa using this
+
+theorem default_verbatim (regs : List RegDef) (l : List Char) (h : classifyText regs l = none) :
+    elemOfLine regs l = .ok (.dflt (.str l)) := by
+  simp [elemOfLine, h]
+
+/-- non-vacuity: declaration order matters when identifiers overlap -/
+example :
+    let rA : RegDef := ⟨"AB".toList, 2, [], .none⟩
+    let rB : RegDef := ⟨"B".toList, 3, [], .none⟩
+    classifyText [rA, rB] "ABx\n".toList = some 0 ∧ classifyText [rB, rA] "ABx\n".toList = some 0 ∧
+    classifyText [rA, rB] "xB\n".toList = some 1 ∧ classifyText [rA, rB] "xxxB\n".toList = none := by decide
 
 end Props.C04
